@@ -17,7 +17,7 @@ PY_ASSUMPTIONS = [
 ]
 
 
-def native_standin(pid, repo, tier, seed, focus=None, timeout=900):
+def native_standin(pid, repo, tier, seed, inputs=None, timeout=900):
     """bounded stand-in: native sweep with an executable oracle.  Never counted as proved."""
     script = os.path.join(ROOT, 'replay', 'native', pid + '.py')
     if not os.path.exists(script):
@@ -25,12 +25,24 @@ def native_standin(pid, repo, tier, seed, focus=None, timeout=900):
     env = dict(os.environ)
     env['PYTHONPATH'] = repo
     cmd = [PY_NATIVE, script, '--tier', tier, '--seed', str(seed)]
+    tmp = None
+    if inputs:
+        import tempfile
+        fd, tmp = tempfile.mkstemp(suffix='.json', prefix='pyvc_inputs_')
+        with os.fdopen(fd, 'w') as f:
+            json.dump(inputs, f)
+        cmd += ['--inputs', tmp]
     t0 = time.time()
     try:
         p = subprocess.run(cmd, cwd=repo, env=env, capture_output=True, text=True, timeout=timeout)
     except subprocess.TimeoutExpired:
         return {'tool': 'native sweep ' + os.path.relpath(script, ROOT), 'result': 'timeout', 'failures': [], 'evaluations': 0, 'wall_s': timeout}
-    res = {'tool': 'native sweep ' + os.path.relpath(script, ROOT), 'wall_s': round(time.time() - t0, 2)}
+    if tmp:
+        try:
+            os.unlink(tmp)
+        except OSError:
+            pass
+    res = {'tool': 'native sweep ' + os.path.relpath(script, ROOT), 'wall_s': round(time.time() - t0, 2), 'model_inputs_replayed': len(inputs or [])}
     try:
         last = [l for l in p.stdout.splitlines() if l.startswith('{')][-1]
         j = json.loads(last)
@@ -96,7 +108,7 @@ def run_check(pid, tier, repo, seed, opts):
             checker_errors.append('unit %s generated zero obligations' % r['unit'])
     if not units:
         checker_errors.append('no proof units registered for %s' % pid)
-    sat = [o for o in obs if o['status'] == 'sat']
+    sat = [o for o in obs if o['status'] in ('sat', 'sat?')]
     unknown = [o for o in obs if o['status'] == 'unknown']
     discharged = [o for o in obs if o['status'] == 'unsat']
     # ---- canaries (must-fail mutations, in memory)
@@ -122,7 +134,7 @@ def run_check(pid, tier, repo, seed, opts):
     standin = None
     need_native = bool(sat or unknown or undecided_units)
     if not opts.no_native and (need_native or tier == 'thorough'):
-        standin = native_standin(pid, repo, tier, seed)
+        standin = native_standin(pid, repo, tier, seed, inputs=[o['native'] for o in sat if o.get('native') is not None][:20])
     # ---- verdict
     os.makedirs(os.path.join(ROOT, 'replay', 'found'), exist_ok=True)
     violations = []
@@ -132,7 +144,7 @@ def run_check(pid, tier, repo, seed, opts):
     native_fail = (standin or {}).get('failures') or []
     used_native = False
     for o in sat:
-        rp = os.path.join(ROOT, 'replay', 'found', '%s_%s.json' % (pid, abs(hash(o['unit'] + o['name'])) % 10 ** 8))
+        rp = os.path.join(ROOT, 'replay', 'found', '%s_%s.json' % (pid, __import__('hashlib').sha1((o['unit'] + o['name']).encode()).hexdigest()[:10]))
         rec = {'property': pid, 'obligation': o['name'], 'unit': o['unit'], 'function': o['where'], 'tier': o['tier'], 'kind': o['kind'],
                'status': 'sat (obligation fails)', 'goal': o['goal'], 'model': o.get('model'),
                'function_source': funcs.get(o['where']), 'repo': repo, 'native_input': None}
@@ -149,7 +161,7 @@ def run_check(pid, tier, repo, seed, opts):
         if confirmed is not None:
             json.dump(rec, open(rp, 'w'), indent=1, default=str)
             violations.append((o, rp, ''))
-        elif o['tier'] == 'P':
+        elif o['tier'] == 'P' and o['status'] == 'sat':
             json.dump(rec, open(rp, 'w'), indent=1, default=str)
             violations.append((o, rp, ' no-failing-input-found'))
         else:
